@@ -225,6 +225,9 @@ theorem step_measure (cfg : Cfg) (s t : St) (h : Step cfg false s t) : measure t
   | clAcq _ i hi ht =>
     have l1 := le_tot wt _ _ _ hi
     (try simp only [St.setDone, St.setBg, ↓reduceIte, Bool.false_eq_true, Bool.and_false, Bool.and_true, Bool.false_and, Bool.true_and]) <;> (repeat' split) <;> simp_all [tot_set_eq _ _ _ _ _ hi, bgWt_run, bgWt_idle, bgWt_exited, bgWt_parked, bgWt_afterCmd, ehWt_noerr, ehWt_haserr, ehWt_hasperr, ehWt_closing, ehWt_exited, wt, ackWt, bphWt, St.bg, onOk, onErr, selNext, afterSetErr] <;> (try omega)
+  | clAcqKept _ i hi he hk hs =>
+    have l1 := le_tot wt _ _ _ hi
+    (try simp only [St.setDone, St.setBg, ↓reduceIte, Bool.false_eq_true, Bool.and_false, Bool.and_true, Bool.false_and, Bool.true_and]) <;> (repeat' split) <;> simp_all [tot_set_eq _ _ _ _ _ hi, bgWt_run, bgWt_idle, bgWt_exited, bgWt_parked, bgWt_afterCmd, ehWt_noerr, ehWt_haserr, ehWt_hasperr, ehWt_closing, ehWt_exited, wt, ackWt, bphWt, St.bg, onOk, onErr, selNext, afterSetErr] <;> (try omega)
   | clWait _ i hi hm ht =>
     have l1 := le_tot wt _ _ _ hi
     (try simp only [St.setDone, St.setBg, ↓reduceIte, Bool.false_eq_true, Bool.and_false, Bool.and_true, Bool.false_and, Bool.true_and]) <;> (repeat' split) <;> simp_all [tot_set_eq _ _ _ _ _ hi, bgWt_run, bgWt_idle, bgWt_exited, bgWt_parked, bgWt_afterCmd, ehWt_noerr, ehWt_haserr, ehWt_hasperr, ehWt_closing, ehWt_exited, wt, ackWt, bphWt, St.bg, onOk, onErr, selNext, afterSetErr] <;> (try omega)
